@@ -367,6 +367,16 @@ fn write_json_string(f: &mut std::fmt::Formatter<'_>, s: &str) -> std::fmt::Resu
 }
 
 #[cfg(feature = "verif_hooks")]
+impl TranslationsInfos {
+    /// Verification hook: the options `get_icu_keys` derives from the translations, before they are turned into data keys.
+    pub fn verif_used_options(&self) -> HashSet<Options> {
+        let mut used_icu_keys = HashSet::new();
+        self.get_icu_keys_inner(&mut used_icu_keys);
+        used_icu_keys
+    }
+}
+
+#[cfg(feature = "verif_hooks")]
 impl<'a> TranslationsFormatter<'a> {
     /// Verification hook: build a formatter over arbitrary strings.
     pub fn verif_new(strings: &'a [Rc<str>]) -> Self {
